@@ -47,6 +47,7 @@ def run(fb, rep, tier):
     c2_rootlist(fb, rep)
     c3_hashmove(fb, rep)
     c5_pv_splice(fb, rep)
+    c6_count_clamp(fb, rep)
 
 
 # ----------------------------------------------------------------------------- .1
@@ -357,3 +358,131 @@ def _nl_header(f, b):
         if b in body and (best is None or len(body) < len(nl[best])):
             best = h
     return best
+
+
+# ----------------------------------------------------------------------------- .6
+
+def c6_count_clamp(fb, rep):
+    """K12 clamped count: a caller-supplied count (the MultiPV number) that indexes, offsets or is handed on
+    together with the root move list is, at every such use, the minimum of something and the size of that
+    list, and the list's length does not change after the clamp.  Otherwise `rootMoves[maxPV-1]`,
+    `begin()+maxPV` and the PV printer run past the end for option combinations that shrink the list
+    (strength limiting, search-move restrictions, tablebase root filtering)."""
+    from .. import bbalg as B
+    clause = 'C03.6'
+    f = fb.find1('Search::iterativeDeepening')
+    if rep.need(clause, f, 'Search::iterativeDeepening') is None:
+        return
+    params = {p_['id']: p_['n'] for p_ in f.d.get('params', []) if (p_.get('t') or '') in ('int', 'unsigned int', 'long', 'S64', 'size_t')}
+    # vectors local to the function that are indexed
+    vec_ids = {}
+    for b, i, e in f.events():
+        if e.get('k') == 'decl':
+            for v in e.get('vars', []):
+                if (v.get('t') or '').startswith('std::vector'):
+                    vec_ids[v['id']] = v['n']
+
+    def vec_of(t):
+        for n in walk(t):
+            if n.get('k') == 'var' and n.get('id') in vec_ids:
+                return n['id']
+        return None
+
+    def params_in(ts):
+        return {n['id'] for t in (ts if isinstance(ts, list) else [ts]) for n in walk(t) if n.get('k') == 'var' and n.get('vk') == 'param' and n.get('id') in params}
+    sites = []
+    for b, i, e in f.events():
+        if e.get('k') != 'call':
+            continue
+        n = cname(e)
+        if n.endswith('::operator[]') and e.get('recv') is not None and vec_of(e['recv']) is not None:
+            for pid in params_in(e.get('args', [])):
+                sites.append((b, i, e, vec_of(e['recv']), pid, 'index'))
+        elif n.endswith('operator+') and vec_of(e) is not None and any(x.get('k') == 'call' and cname(x).endswith('::begin') for x in walk(e)):
+            for pid in params_in(e.get('args', [])):
+                sites.append((b, i, e, vec_of(e), pid, 'iterator offset'))
+        elif e.get('repo') and len(e.get('args', [])) >= 2:
+            vs = [vec_of(a) for ai, a in enumerate(e['args']) if isinstance(_strip(a), dict) and _strip(a).get('k') == 'var' and vec_of(a) is not None
+                  and ai not in (e.get('mutargs') or [])]     # handed on read-only: the callee indexes it, it does not build it
+            ps = set()
+            for a in e['args']:
+                a0 = _strip(a)
+                if isinstance(a0, dict) and a0.get('k') == 'var' and a0.get('id') in params and a0.get('vk') == 'param':
+                    ps.add(a0['id'])
+            for v in vs:
+                for pid in ps:
+                    sites.append((b, i, e, v, pid, 'passed on with the list'))
+    rep.floor(clause, 'uses of a caller-supplied count with the root move list', len(sites), 6)
+
+    def clamped(t, vid):
+        t = _strip(t)
+        if isinstance(t, dict) and t.get('k') == 'call' and cname(t) == 'std::min' and len(t.get('args', [])) == 2:
+            for a in t['args']:
+                a = _strip(a)
+                if isinstance(a, dict) and a.get('k') == 'call' and cname(a).endswith('::size') and vec_of(a.get('recv')) == vid:
+                    return True
+                if clamped(a, vid):
+                    return True
+        return False
+    done = set()
+    ordinal = {}
+    for b, i, e, vid, pid, how in sorted(sites, key=lambda s_: (s_[2].get('ln') or 0)):
+        key = (e.get('ln'), vid, pid, how)
+        if key in done:
+            continue
+        done.add(key)
+        ok_ = (show(e, 60), how)
+        ordinal[ok_] = ordinal.get(ok_, 0) + 1
+        try:
+            stores = B.sym_stores(f, (b, i), B.relevant_ids(f, {pid}, stop=set(vec_ids)) - set(vec_ids))
+        except B.Unsupported as ex:
+            rep.broken(clause, str(ex))
+            continue
+        bad = [show(st.get(pid), 200) if pid in st else 'the raw argument' for st, _ in stores if not (pid in st and clamped(st[pid], vid))]
+        rep.ob(clause, 'K12 clamped count', 'iterativeDeepening `%s` (#%d in source order): %s used as %s of %s is min(.., %s.size())' % (
+            show(e, 60), ordinal[ok_], params[pid], how, vec_ids[vid], vec_ids[vid]), not bad, R.site(f, e), ('value: ' + bad[0]) if bad else '', f.sname)
+    # the list length is not changed after the clamp
+    for vid, vname in vec_ids.items():
+        clamps = [(b, i, e) for b, i, e in f.events() if e.get('k') == 'asg' and isinstance(e.get('l'), dict) and e['l'].get('id') in params and clamped(e.get('r'), vid)]
+        if not clamps:
+            continue
+
+        def resizes(ev, _vid=vid):
+            if ev is None or ev.get('k') != 'call':
+                return False
+            n = cname(ev).split('::')[-1]
+            if ev.get('recv') is not None and vec_of(ev['recv']) == _vid and _strip(ev['recv']).get('k') == 'var' and n in ('push_back', 'emplace_back', 'pop_back', 'erase', 'clear', 'resize', 'insert', 'assign', 'swap'):
+                return True
+            for idx in ev.get('mutargs') or []:
+                a = _strip(ev['args'][idx]) if idx < len(ev.get('args', [])) else None
+                if isinstance(a, dict) and a.get('k') == 'var' and a.get('id') == _vid and ev.get('repo'):
+                    callee = fb.funcs.get(ev.get('f'))
+                    if callee is None or not callee.has_cfg or _callee_resizes(fb, callee, idx):
+                        return True
+            return False
+        for b, i, e in clamps:
+            w = f.path_avoiding((b, i), resizes, R.never)
+            rep.ob(clause, 'K2 order', 'the length of %s does not change after %s was clamped to it' % (vname, show(e.get('l'))), w is None, R.site(f, e),
+                   'resized later at %s' % (w[-1],) if w else '', f.sname)
+
+
+def _callee_resizes(fb, callee, argidx):
+    """Does the callee change the length of the vector it receives as parameter #argidx?"""
+    ps = callee.d.get('params', [])
+    if argidx >= len(ps):
+        return True
+    pid = ps[argidx]['id']
+    for _, _, e in callee.events():
+        if e.get('k') == 'call' and e.get('recv') is not None:
+            r = _strip(e['recv'])
+            if isinstance(r, dict) and r.get('k') == 'var' and r.get('id') == pid and cname(e).split('::')[-1] in (
+                    'push_back', 'emplace_back', 'pop_back', 'erase', 'clear', 'resize', 'insert', 'assign', 'swap', 'operator='):
+                return True
+        if e.get('k') == 'call':
+            for idx in e.get('mutargs') or []:
+                a = _strip(e['args'][idx]) if idx < len(e.get('args', [])) else None
+                if isinstance(a, dict) and a.get('k') == 'var' and a.get('id') == pid and not cname(e).startswith('std::'):
+                    return True
+        if e.get('k') == 'asg' and isinstance(_strip(e.get('l')), dict) and _strip(e['l']).get('id') == pid:
+            return True
+    return False
